@@ -28,7 +28,7 @@ RULE = (
 REQUIRED = {
     "leaf_law_checks": 200, "online_unchanged_checks": 30, "identity_checks": 9,
     "in_loop_target_changes_checked": 60, "cadence_iterations_checked": 400,
-    "routines_traced": 9,
+    "routines_traced": 9, "td7_checkpoint_stability_checks": 30,
 }
 TIMEOUT = {"quick": 1500, "thorough": 7000}
 ASSUMPTIONS = [
@@ -59,11 +59,35 @@ def gen_cases(tier, seed):
                 tau=float(rng.choice([0.005, 0.3, 1.0])),
                 gradient_steps=int(rng.choice([1, 1, 2])),
                 total=int(rng.integers(80, 130)), cost=3 * COST.get(algo, 3)))
+    for i in range(2 * k):
+        # TD7's checkpoint copies: change only by the flagged copies
+        cases.append(dict(kind="td7_checkpoint", idx=i,
+                          seed=int(rng.integers(1 << 20)), cost=12))
     return cases
 
 
 def run_case(case):
     return globals()["run_" + case["kind"]](case)
+
+
+def run_td7_checkpoint(case):
+    """In-loop monitor shared with C15 (vf.loop_td7); here only what concerns
+    the checkpoint copies counts: they equal the live policy right after a
+    flagged copy, stay bit-identical until the next one, and the returned
+    networks are the checkpoint."""
+    from vf.loop_td7 import run_td7_case
+
+    r = run_td7_case(case)
+    res = Result()
+    res.obs.update({k: v for k, v in r.obs.items()
+                    if "checkpoint" in k or "copies" in k or k == "td7_runs"})
+    for v in r.viol:
+        if any(w in v["key"] for w in ("checkpoint", "copy", "raises")):
+            res.violation(v["key"].replace("C15/td7/", "C06/td7_checkpoint/")
+                          .replace("C15/", "C06/"), v["msg"], v.get("witness"))
+    res.nontrivial = r.obs.get("td7_copies", 0) > 0
+    res.state(("td7_checkpoint", res.nontrivial))
+    return res
 
 
 # ------------------------------------------------------------------ (a)
